@@ -133,6 +133,8 @@ func runC11(c *Ctx) {
 	c.Rule("C11.O7", "E2,E4", "write queue: each entry released once — on flush's completion edge before the pop, or by teardown's loop followed by dropping the list; releaseToWrite closes the queued descriptor too", 3)
 	c.Rule("C11.O8", "E2-summaries", "views handed to BodyReader.append / websocket.Conn.Parse / processors' OnBody are only measured, copied or re-sliced", 3)
 	c.Rule("C11.O9", "E4", "a pooled buffer is never re-sliced from the front in place (*p = (*p)[k:]): its capacity would no longer be the one the allocator handed out, and a size-class allocator files it under the wrong class on Free", 1)
+	c.Rule("C11.O11", "E5", "a retained request body has one owner: every release of a request passes the engine's RetainHTTPBody setting, so the library never frees or recycles body buffers the application was told it owns", 3)
+	c10RetainSetting(c, "C11.O11")
 	c.Rule("C11.O10", "E2", "a view taken from a pooled buffer or from a write-queue entry before it is released (a dereference, a re-slice, a field of the entry) is not used on any path after the release: callbacks and copies that need the bytes run before the buffer goes back to the pool", 40)
 	c11StaleViews(c)
 	c11NoFrontReslice(c, "C11.O9")
